@@ -327,3 +327,9 @@ Definition tracking_sample {I} (t : tracker I) (child : I -> result) (inp : I) :
 (* ExactCQMSolver: the enumerated rows as samples of the CQM (labels = column order) *)
 Definition cqm_case_samples (order : list label) (sizes : list nat) (doms : list vdom) : list sample :=
   map (fun row => row_sample order (map (fun z => Q2Qc (inject_Z z)) row)) (all_cases_cqm sizes doms).
+
+(* ------------------------------------------------------------------ *)
+(* BinaryQuadraticModel.from_qubo(Q) as built by the sample_qubo mixin: a self-loop (v, v) is a
+   linear bias (x*x = x); from_ising(h, J) is ising_poly h J (self-loops in J are rejected) *)
+Definition from_qubo (Q : list qterm) : poly :=
+  fold_left (fun p t => add_quadratic (fun _ => BINARY) (fst (fst t)) (snd (fst t)) (snd t) p) Q pzero.
